@@ -190,7 +190,8 @@ def run(ctx, report):
             if got[2] != base[2]:
                 la, lb = base[2].split('\n'), got[2].split('\n')
                 k = next((i for i, (a, b) in enumerate(zip(la, lb)) if a != b), min(len(la), len(lb)))
-                report.fail('C12:ack-differs:%s' % (la[k].split('*')[0] if k < len(la) else 'end'),
+                sit = ':component-separator-is-a-control-character' if ord(d2[2]) < 32 else ''
+                report.fail('C12:ack-differs:%s%s' % ((la[k].split('*')[0] if k < len(la) else 'end'), sit),
                             'acknowledgement differs: %r vs %r' % (la[k] if k < len(la) else None, lb[k] if k < len(lb) else None), inp)
             # reader correspondence on both encodings
             reqs.append(('reader', ['0', t2, '']))
